@@ -13,3 +13,5 @@ GROUPS = [
 ASSUMPTIONS = ['A6 the 64-bit indices do not wrap (high < 2^62)', 'values pushed are non-NULL (documented precondition of trypush)',
                'capacity: the refinement proofs run with a symbolic capacity 2^1..2^4 (quick) / 2^1..2^6 (thorough) over a fixed backing store - larger capacities only change `size` and the mask, but are not covered by the proof (CBMC array post-processing blows up on a symbolic-size object)',
                'the blocking wrappers lockfree_ring_buffer_push/pop are retry loops around trypush/trypop and add no shared writes of their own (not separately proved)']
+# the property's second anchor (src/fiber_manager.c) is the mpmc node pool built on this ring buffer: its group lives with the woven fiber_manager.c in C01
+IMPORTS = [dict(prop='C01', groups=['node_pool'])]
